@@ -156,7 +156,30 @@ func ghostOperand(f *Frame, st, old *State, idx []spec.Expr, args []spec.Expr) T
 	}
 	if v, known := fe.truth(isConst); known && v {
 		val := par.selectField(e, "Value", fe.create)
-		return TV{x.ifaceConst(val.V.(*Struct), k), gt}
+		vs := val.V.(*Struct)
+		// expression well-formedness (assumed for operands): a typed constant's Value has the
+		// kind of its Type
+		x.note("expression well-formedness (assumed for operands): the Value of a constant operand has the kind of its Type")
+		x.assumeGlobal(x.B.Eq(x.rkind(x.B.UF("rv_of", rvSort, vs.Fields[0].(*smt.Term), x.scalar(vs.Fields[1], nil))), x.B.BVC(k, 64)))
+		cv := x.ifaceConst(vs, k)
+		// constants are exact values (go/constant): a floating-point constant is never negative zero
+		nz := func(t *smt.Term) {
+			if t.S.K == smt.KFP {
+				x.note("constant operands (assumed): a floating-point constant is never negative zero (go/constant holds exact values)")
+				x.assumeGlobal(x.B.Not(x.B.And(x.B.FPPred("fp.isZero", t), x.B.FPPred("fp.isNegative", t))))
+			}
+		}
+		switch c := cv.(type) {
+		case *smt.Term:
+			nz(c)
+		case *Struct:
+			for _, fl := range c.Fields {
+				if t, ok := fl.(*smt.Term); ok {
+					nz(t)
+				}
+			}
+		}
+		return TV{cv, gt}
 	}
 	fun := par.selectField(e, "Fun", fe.create).V.(*Struct)
 	callee := x.simplifyUnder(st.PC, x.scalar(fun.Fields[1], nil))
